@@ -44,6 +44,21 @@ def main():
     manifest = json.load(open(os.path.join(VERIF, 'MANIFEST.json')))
     claimed = [c['property_id'] for c in manifest['checks']]
     out_path = os.path.join(VERIF, 'evidence', 'sensitivity.json')
+    if '--out' in args:
+        out_path = args[args.index('--out') + 1]      # (several instances over disjoint parts; merge with --merge afterwards)
+    part = None
+    if '--part' in args:
+        i_, n_ = args[args.index('--part') + 1].split('/')
+        part = (int(i_), int(n_))
+    if '--merge' in args:
+        merged = {}
+        for f in [os.path.join(VERIF, 'evidence', 'sensitivity.json')] + args[args.index('--merge') + 1].split(','):
+            if os.path.exists(f):
+                for r_ in json.load(open(f))['results']:
+                    merged[r_['seed_id']] = r_
+        _write(os.path.join(VERIF, 'evidence', 'sensitivity.json'), merged)
+        print('merged', len(merged), 'records')
+        return
     results = {}
     if os.path.exists(out_path):
         try:
@@ -51,9 +66,11 @@ def main():
         except Exception:
             results = {}
     seeds = sorted(os.path.dirname(p) for p in glob.glob(os.path.join(VERIF, 'seeded', '*', 'patch.diff')))
-    for d in seeds:
+    for idx_, d in enumerate(seeds):
         sid = os.path.basename(d)
         if only and sid not in only:
+            continue
+        if part and idx_ % part[1] != part[0]:
             continue
         meta = json.load(open(os.path.join(d, 'meta.json')))
         wt = '/tmp/seeded_wt_%s' % sid
@@ -81,8 +98,8 @@ def main():
             for pid in checks:
                 t0 = time.time()
                 env = dict(os.environ, VERIF_REPO=wt, VERIF_SEED=os.environ.get('VERIF_SEED', '0'))
-                env['VERIF_EVIDENCE_DIR'] = '/tmp/seeded_evidence'
-                env['VERIF_REPLAY_DIR'] = '/tmp/seeded_replays'
+                env['VERIF_EVIDENCE_DIR'] = '/tmp/seeded_evidence_%s' % sid
+                env['VERIF_REPLAY_DIR'] = '/tmp/seeded_replays_%s' % sid
                 flag = '/tmp/seeded_stop_%s_%s' % (sid, pid)
                 if os.path.exists(flag):
                     os.remove(flag)
@@ -101,6 +118,8 @@ def main():
         finally:
             sh('git -C /repo worktree remove --force %s' % wt)
             shutil.rmtree(wt, ignore_errors=True)
+            shutil.rmtree('/tmp/seeded_evidence_%s' % sid, ignore_errors=True)
+            shutil.rmtree('/tmp/seeded_replays_%s' % sid, ignore_errors=True)
         results[sid] = rec
         print(sid, meta['property'], 'suite_ok=%s' % rec.get('suite_passes'), 'demo(repo,change)=(%s,%s)' % (rec.get('demo_on_repo'), rec.get('demo_on_change')),
               'caught_by=%s' % rec.get('caught_by'))
